@@ -239,6 +239,9 @@ def check_C04(tier):
     engine_run(c, "real-column", "RealMenu", lines="LinesReal", maxlines=3, maxfiles=1, tdefs=("vreal",), modes=("batch", "incr") if t else ("batch",))
     # aggregates over TIMESTAMP and INTERVAL values (MIN / MAX by instant, SUM / AVG of intervals, GROUP BY a timestamp, DISTINCT on them)
     engine_run(c, "calendar-agg", "CalAggMenu", lines="LinesCal", maxlines=3, maxfiles=1, tdefs=("plain",), modes=("batch",))
+    # PERCENTILE with fractions of three decimals and eighths: rank floor(p * n), on three lines and on 25-40 lines
+    engine_run(c, "percentile-fine", "PercentileFineMenu", lines="LinesAgg", maxlines=3, maxfiles=1, tdefs=("plain",), modes=("batch",))
+    engine_sim(c, "percentile-fine-long", "PercentileFineMenu", lines="LinesRich", maxlines=40, num=400 if t else 40, modes=("batch",), minlines=25)
     # HAVING and DISTINCT together judge every group on its own key and aggregates
     engine_run(c, "agg-distinct-having", "DistinctMenu", lines="Lines4", maxlines=3, maxfiles=1, tdefs=("plain",), modes=("batch",))
     engine_sim(c, "agg", "AggMenu", lines="LinesRich", maxlines=10, num=2500 if t else 200, modes=("batch",))
